@@ -121,11 +121,13 @@ def _run_stream(gen_factory, cls, kinds, codes, getmove, repository_query=False)
     am.decode = _mk_decode(decoded)
     try:
         out = []
+        resumed = []
         gen = gen_factory(assoc)
         for st, ident in gen:
             if assoc.lock.locked():
                 return False  # a lock is held while the caller owns the suspended iterator
             out.append((st, ident))
+            resumed.append(assoc._reactor_checkpoint.is_set())
         if assoc.lock.locked():
             return False
     finally:
@@ -162,8 +164,12 @@ def _run_stream(gen_factory, cls, kinds, codes, getmove, repository_query=False)
         return False
     if len(peer.sent) != exp_stores or any(s.kind != "C_STORE" or s.context_id != 3 for s in peer.sent):
         return False
-    # fail cleanly: the reactor is resumed once the iterator is exhausted
+    # fail cleanly: the reactor is resumed once the iterator is exhausted ...
     if not assoc._reactor_checkpoint.is_set():
+        return False
+    # ... and already when the last result (final status or documented empty result) is handed over: a caller that
+    # stops iterating there must not leave the association reactor paused (it could no longer answer a release)
+    if resumed and not resumed[-1]:
         return False
     return True
 
